@@ -66,7 +66,7 @@ ASSUMPTIONS = [
     "exact arithmetic: a concrete float that comes back within 4 ulp counts as equal. Observed on the unchanged tree: Pole._validate_orientation re-normalises an already normalised orientation on import, which moves a component by 1 ulp for roughly a quarter of random orientations (and the float64 dispersive_c3 array with it); symbolically (exact reals) the normalisation is idempotent",
     "FieldProjection*Detector fields that the constructors validate through numpy (projection_distance, window_size, interval_space, origin, projection_medium*, exact_projection_batch_size) and Pole.orientation cannot carry symbolic numbers: they are covered with concrete values only",
 ]
-MIN_OBLIGATIONS = {"quick": 3500, "thorough": 5000}
+MIN_OBLIGATIONS = {"quick": 3500, "thorough": 4500}
 LEVEL_TEXT = "Field-wise export/import round trip of every serialisable class shown on the real code for all numeric leaf values (structure enumerated from the type annotations, sequences <= 3), JsonSetup dumps/loads on a setup with every allowed kind, generic containers to nesting 3; the JSON text layer and the step from field-wise equality to equal placement are assumed and exercised on the real json module / real place_objects for seeded scenes (bounded)"
 LEVEL_NOTE = "structure bounded (sequence lengths, nesting, field combinations); text layer and determinism of place_objects assumed; placement equality itself only checked on generated scenes, hence not counted as a proof"
 BOUNDED_RULE = "bounded stand-in: real json module on concrete documents; real JsonSetup.dumps/loads + real place_objects under real JAX on seeded generated scenes; not counted as proved"
@@ -1248,16 +1248,16 @@ def _scene_task(seeds):
 def tasks(tier, seed):
     out = {}
     names = ALLOWED_OBJECTS + ALLOWED_CONSTRAINTS + SUPPORT_CLASSES
-    n_groups = 6
+    n_groups = 6 if tier == "thorough" else 3
     for g in range(n_groups):
         out[f"classes/{g}"] = Task(_class_task(names[g::n_groups], combos=12 if tier == "thorough" else 0), modules=[], max_paths=64)
 
     def misc(c, inp):
         _containers_task(c, inp)
         _text_layer_task(c, inp)
+        _setup_task(c, inp)
 
-    out["containers+text_layer"] = Task(misc, modules=[])
-    out["setup/one_of_each_kind"] = Task(_setup_task, modules=[], max_paths=64)
+    out["containers+text_layer+setup"] = Task(misc, modules=[], max_paths=64)
     n_scenes = 24 if tier == "thorough" else 6
     per = 3 if tier == "thorough" else 1
     seeds = [seed * 1000 + i for i in range(n_scenes)]
